@@ -330,6 +330,16 @@ def check(pid, tier, seed, t0, st, replay):
             else:
                 cst = scan.parse_cases_cst(work + '/cases.txt') if pid == 'C03' else None
                 stats, kinds = run_oracles(pid, ex['recs'], res, cst)
+                if pid in ('C05', 'C06') and not replay:
+                    # the same attributes as a user reads them: through queries on the model objects
+                    import objview
+                    fam_ = [c_ for c_ in cases if c_['origin'] == 'family']
+                    ostats, obad = objview.check(pid, fam_[:25 if tier == 'quick' else 200] + fam_[-12:], work, B + '/harness')
+                    stats.update(ostats)
+                    for b_ in obad[:5]:
+                        res.violations.append(dict(property=pid, what=b_['what'], query=b_.get('query'), detail=b_.get('detail'),
+                                                   how='scan the listed family files and run the query with `pathfinder query --output json`',
+                                                   files=[(c_['id'] + '.java', c_['data'].decode('utf-8', 'replace')) for c_ in (fam_[:25] + fam_[-12:])][:40]))
                 if pid in ('C04', 'C09'):
                     # the same inputs through the real read path (readFile -> parser -> builder -> merge)
                     dstats, dbad = scan.disk_locations(cases, work, B + '/harness')
